@@ -570,6 +570,13 @@ def run_request(ctx: Any, app: App, req: dict, seen_notes: set, tags: tuple[str,
         if ob["status"] != 503 or ob.get("retry") != str(top.retry_after):
             ctx.fail(case, f"C21:outage-not-503:{ob['status']}",
                      f"AuthUnavailableError(retry_after={top.retry_after}) -> status {ob['status']}, Retry-After {ob.get('retry')!r}")
+    # an outage of any callback that was consulted is a 503 — never swallowed into a 401 by a composition
+    for src in st.log:
+        e = st.obs.get(src)
+        if isinstance(e, L.un.AuthUnavailableError) and (ob["status"] != 503 or ob.get("retry") != str(e.retry_after)):
+            ctx.fail(case, f"C21:outage-swallowed:{ob['status']}",
+                     f"{src} raised AuthUnavailableError(retry_after={e.retry_after}); status {ob['status']}, Retry-After {ob.get('retry')!r}")
+            break
     if ob["status"] == 401:
         ctx.tag(f"reason:{ob['reason_header']}", f"resp:{ob['body']['k']}")
         if known_top and not rejection:
@@ -1199,8 +1206,8 @@ def run_compositions(ctx: Any, L: Any) -> None:
             flush_requests(ctx, app)
     # ---- random compositions ----------------------------------------------------------------------
     maxd = 7 if thorough else 4
-    n_trees = ctx.budget(160, 4000)
-    per = ctx.budget(10, 24)
+    n_trees = ctx.budget(160, 3000)
+    per = ctx.budget(10, 20)
     for ti in range(n_trees):
         d = 1 + (ti % maxd)
         tree = gen_tree(rng, d, True, [0], builtins=rng.random() < 0.4)
@@ -1215,7 +1222,7 @@ def run_bodies(ctx: Any) -> None:
     rng = ctx.rng
     for tag, segs in body_corpus():
         run_body(ctx, tag, segs)
-    for _ in range(ctx.budget(1500, 40000)):
+    for _ in range(ctx.budget(1500, 25000)):
         tag, segs = gen_body(rng)
         run_body(ctx, tag, segs)
     flush_bodies(ctx)
@@ -1251,6 +1258,17 @@ def replay(ctx: Any, case: dict) -> None:
             app = App(L, case["tree"], case["declared"], case["proof"], wrap_top=case.get("wrap_top", True))
             run_request(ctx, app, case["req"], set(), tags=("replay",))
             flush_requests(ctx, app)
+        elif case.get("what") == "combine" and case.get("kind") == "unit":
+            AR = L.un.AuthReason
+            codes = [AR(c) for c in case["codes"]]
+            impl = L.bearer._combine_reasons(codes).value
+            ctx.case(case, tags=("replay",))
+            if ctx.driver is not None:
+                r = j2s(ctx.driver.call("C21.combine", {"codes": [s2j(c.value) for c in codes]}))
+                if r != impl:
+                    ctx.mismatch(case, r, impl, "_combine_reasons")
+            if codes and impl != spec_chain(case["codes"]):
+                ctx.fail(case, f"C21:combine-violates-3.1:{impl}", f"codes {case['codes']} -> {impl}")
         else:
             run_units(ctx, L)
     finally:
